@@ -1033,6 +1033,30 @@ class Pass3(CompilePass):
                 'WHILE condition should be a numeric expression',
                 node=node.cond)
 
+    def _check_numeric(self, expr, what):
+        if not expr.type.is_numeric:
+            raise CompileError(
+                EC.TYPE_MISMATCH,
+                f'{what} should be a numeric expression',
+                node=expr)
+
+    def process_if_block_pre(self, node):
+        for cond, _ in node.if_blocks:
+            self._check_numeric(cond, 'IF condition')
+
+    def process_if_pre(self, node):
+        self._check_numeric(node.cond, 'IF condition')
+
+    def process_loop_block_pre(self, node):
+        if node.cond is not None:
+            self._check_numeric(node.cond, 'Loop condition')
+
+    def process_for_block_pre(self, node):
+        self._check_numeric(node.from_expr, 'FOR start value')
+        self._check_numeric(node.to_expr, 'FOR end value')
+        if node.step_expr is not None:
+            self._check_numeric(node.step_expr, 'FOR step value')
+
 
 class Compiler:
     def __init__(self, codegen_name, optimization_level=0,
